@@ -33,6 +33,9 @@ class Obj:
         if cls == 'Oa':
             names = ['x', 'y']
             vals = {'y': None}
+        elif cls == 'Oc':
+            names = ['tags']
+            vals = {}
         else:
             names = ['k', 'w', 'verbose']
             vals = {'w': 5, 'verbose': False}
@@ -44,9 +47,13 @@ class Obj:
     def tcv_canon(self):
         if self.cls == 'Oa':
             return ['Oa', _c(self.vals['x']), _c(self.vals['y'])]
+        if self.cls == 'Oc':
+            return ['Oc', sorted(self.vals['tags'])]
         return ['Ob', _c(self.vals['k']), _c(self.vals['w'])]
 
     def repr(self):
+        if self.cls == 'Oc':
+            return 'Oc(tags=<set: hash order>)'  # not predictable: known finding apo-set-hashseed
         if self.cls == 'Oa':
             return 'Oa(' + canon_param(self.vals['x']) + '|' + canon_param(self.vals['y']) + ')'
         # AutoParameterObject: sorted init args, python repr of the values, `verbose` ignored, w elided at default
@@ -487,11 +494,33 @@ def compute_key_value(tasks, n, parameter_mode=True):
     else:
         iv = [(i['idx'], tasks[i['target']].value) for i in present]
     t.value = provenance(t.slug, pv, iv)
-    # descriptor: what goes into the computation (for C02/C03)
-    t.descriptor = (t.slug, t.key_text.split('$$$')[0] if False else tuple(sorted(
-        (k, v) for k, v in pv.items() if not _elided(t, k))), tuple(
+    # descriptor: what goes into the computation, in placeholder form (C02/C03) - independent of the key text
+    dparams = []
+    for p in t.spec['params']:
+        if p.get('ignore') or _elided(t, p['name']):
+            continue
+        raw = t.raw[p['name']]
+        dparams.append((p['name'], 'Path' if p.get('dtype') == 'Path' else '', repr(_cd(raw))))
+    t.descriptor = (t.slug, tuple(sorted(dparams)), tuple(
         (rel_name(t, i['key']), tasks[i['target']].descriptor_id) for i in sorted(present, key=lambda i: i['key'])))
     t.descriptor_id = hashlib.sha256(repr(t.descriptor).encode()).hexdigest()[:20]
+
+
+def _cd(v):
+    """Type-strict canonical form of a parameter value with substituted strings in their placeholder form."""
+    if isinstance(v, Sub):
+        return ['s', v.original]
+    if isinstance(v, Obj):
+        if v.cls == 'Oa':
+            return ['Oa', _cd(v.vals['x']), _cd(v.vals['y'])]
+        if v.cls == 'Oc':
+            return ['Oc', sorted(v.vals['tags'])]
+        return ['Ob', _cd(v.vals['k']), _cd(v.vals['w'])]
+    if isinstance(v, list):
+        return ['l', [_cd(x) for x in v]]
+    if isinstance(v, dict):
+        return ['d', sorted(([str(k), _cd(x)] for k, x in v.items()), key=lambda kv: kv[0])]
+    return _c(v)
 
 
 def _elided(t, pname):
